@@ -338,3 +338,18 @@ Proof.
   destruct (run_static _ _ _ Hr) as (_ & E1 & E2). cbn in E1, E2.
   apply stable_progress_inv; auto; [rewrite E1 | rewrite E2]; assumption.
 Qed.
+
+(** Completeness at quiescence: when nothing is in flight towards replica r it has received exactly the
+    commit sequence. *)
+Theorem stable_quiescent_complete : forall ks cs cc ls s r c, NoDup ks -> forallb stable ls = true ->
+  run_labels (init_stable ks cs cc) ls = Some s ->
+  sp s = SIdle -> schan s = [] -> nth_error (gs s) r = Some GLoop -> nth_error (chs s) r = Some c -> q c = [] ->
+  nth_error (delivered s) r = Some (committed s).
+Proof.
+  intros ks cs cc ls s r c Hn Hs Hr Hsp Hsc Hg Hc Hq. pose proof (stable_inv _ _ _ _ _ Hn Hs Hr) as I.
+  assert (r < length (keys s)) as Hl by (rewrite <- (S_lg _ I); apply nth_error_Some; congruence).
+  destruct (nth_error (delivered s) r) as [d|] eqn:Ed; [|apply nth_error_None in Ed; rewrite (S_ld _ I) in Ed; lia].
+  destruct (nth_error (keys s) r) as [k|] eqn:Ek; [|apply nth_error_None in Ek; lia].
+  pose proof (S_acct _ I r k GLoop c d Ek Hg Hc Ed) as A. rewrite Hsp, Hsc, Hq in A. cbn in A.
+  rewrite app_nil_r in A. congruence.
+Qed.
